@@ -200,6 +200,8 @@ func c24gen(c *runner.Ctx) *c24case {
 		cs.stratum = "cache2"
 	case 7:
 		cs.stratum = "order"
+	case 3:
+		cs.stratum = "head" // scripted: late bar exactly at the start of the window after the cached one
 	default:
 		cs.stratum = "avoid"
 		if c.Case%16 == 4 {
@@ -387,8 +389,44 @@ func c24gen(c *runner.Ctx) *c24case {
 		aimAt = 2
 	}
 
+	// head stratum: one request spans two upper-bound windows (the later one without a bar at its very
+	// start), a correction then touches only the earlier window (which becomes the cached one), and a late
+	// bar arrives exactly at the start of the later window, which already holds bars
+	if cs.stratum == "head" {
+		w := int64(ub.d.Seconds())
+		boundary := c24trunc(at(1, anchor), ub)
+		if boundary < at(0, 0)+w {
+			boundary += w
+		}
+		mk := func(lo, hi int64, n int) []c24bar {
+			var out []c24bar
+			seen := map[int64]bool{}
+			for i := 0; i < n; i++ {
+				e := lo + r.I64n((hi-lo)/60+1)*60
+				if !seen[e] {
+					seen[e] = true
+					out = append(out, c24newBar(r, e))
+				}
+			}
+			sort.Slice(out, func(i, j int) bool { return out[i].E < out[j].E })
+			return out
+		}
+		span := minI64(w-60, 40*60)
+		before, after := mk(boundary-span, boundary-60, r.Range(2, 5)), mk(boundary+60, boundary+span-60, r.Range(2, 5))
+		first := append(append([]c24bar{}, before...), after...)
+		fix := []c24bar{c24newBar(r, before[r.Intn(len(before))].E)}
+		late := []c24bar{c24newBar(r, boundary)}
+		if r.Bool() {
+			late = append(late, c24newBar(r, boundary+span)) // ... followed by a newer bar in the same window
+		}
+		seeds = [][]c24bar{first, fix, late}
+		cs.aimed = true
+	}
 	for q := 0; q < nreq; q++ {
 		si := r.Intn(nsym)
+		if cs.stratum == "head" && q < len(seeds) {
+			si = 0
+		}
 		if cs.stratum != "avoid" && cs.stratum != "conc" && q <= aimAt && !cs.aimed {
 			si = 0
 		}
